@@ -318,7 +318,7 @@ TIME_BAD = ["abc", "5", "1.5", "5 s", "-1s", "1:2:3", "5sec", ".5s", "1,5s", "00
 TIME_FRAME_JUNK = ["5frames", "10f0", "3fx", "12f s"]
 ENUM_BAD = ["bogus", "AUTO", "none1", "", "x y"]
 LENGTH_BAD = ["10", "10xx", "px", "1e1px", "10 px", "ten%", "--1c", "1.px"]
-COLOR_BAD = ["#12345", "#gggggg", "rgb(1,2)", "notacolor", "rgba(1,2,3)", "# ff0000", "12", "rgb(a,b,c)"]
+COLOR_BAD = ["#12345", "#gggggg", "rgb(1,2)", "notacolor", "rgba(1,2,3)", "# ff0000", "12", "rgb(a,b,c)", "rgb(256,0,0)", "rgba(0,0,0,999)"]
 COLOR_JUNK = ["#1234567", "#ff0000zz", "rgb(1,2,3)x", "rgba(1,2,3,4)5"]
 NUMBER_BAD = ["abc", "1,0", "0.5.5", "", "half"]
 ENUM_PROPS = set(gen_ttml.TOKENS)
